@@ -7,19 +7,37 @@
   (`Gen/C06.lean`); what they mean is `Props/C06.lean` — the corollaries below instantiate those
   theorems at PANTR's exit.
 
-  PANTR-specific: pantr.tpp declares `unsigned no_progress = 0`, hands it to the chain and never
-  updates it.  Hence `NoProgress` is never reported (`pantr_never_noProgress`); the property's
-  clause "NoProgress only after more than max_no_progress unchanged iterations" holds vacuously and
-  `max_no_progress` is a dead parameter of this solver (reported, not a violation of C06).
+  **PANTR-SPECIFIC — THE NO-PROGRESS CLAUSE IS VACUOUS.**  pantr.tpp declares `unsigned no_progress = 0`,
+  hands it to `check_all_stop_conditions` and NEVER updates it (there is no `++no_progress` / reset in
+  the file).  The chain therefore always sees the counter 0: `NoProgress` is never reported
+  (`pantr_never_noProgress`), the property's clause "NoProgress only after more than max_no_progress
+  consecutive sampled iterations without any change of the iterate" holds vacuously, and
+  `PANTRParams::max_no_progress` is a dead parameter of this solver.  The property text constrains only
+  WHEN `NoProgress` may be reported, so this is not a violation of C06; but a PANTR run whose iterate
+  no longer changes is not stopped by it: it runs on to `max_iter` (or the time limit) — exhibited on
+  the real solver, see `checks/loop_pantr.py: stall_experiment`.  PANOC / ZeroFPR return `NoProgress`
+  on the same problem.
+
+  `pantr_eps_is_documented` (ordered field): the returned `ε` is the DOCUMENTED formula (`Props/C06.docCrit`,
+  an independent specification with mathematical norms and the projection `Π_C`) of the final iterate's
+  `(x, x̂, γ, ∇ψ(x), ∇ψ(x̂), ŷ)`, where that iterate is consistent: `x̂ = Π_C(x − γ∇ψ(x))`, `p = x̂ − x`,
+  `grad_ψ = ∇ψ(x)`, `ŷ = ŷ(x̂)`, `γ > 0`, and `x̂`, `ŷ` are what is written back.  Hypotheses: no NaN
+  (`RealLike.isNaN` constantly false: ordered-field semantics), `ProxIsProj PC prox` (the prox oracle is the
+  projected-gradient step of `Π_C`), `GradOracles P` (`eval_ψ_grad_ψ`, `eval_grad_ψ`, `eval_grad_L(·, ŷ(·))`
+  return the same gradient), `ParamsOK` (`0 < Lγ_factor, L_min, L_max`).  No fuel hypothesis, every stop
+  schedule, every direction provider.
 -/
 import Alpaqa.Proofs.PantrInv
+import Alpaqa.Proofs.PantrDoc
 import Alpaqa.Proofs.PantrExample
+import Alpaqa.Proofs.PantrExampleQ
 import Alpaqa.Props.C06
 
 namespace Alpaqa.Props.C06_Pantr
 open Alpaqa Alpaqa.Pantr Alpaqa.Gen
 set_option linter.unusedSectionVars false
 
+section structural
 variable {α D : Type} [Add α] [Sub α] [Mul α] [Div α] [Neg α] [LT α] [LE α] [DecidableLT α]
   [DecidableLE α] [BEq α] [RealLike α] [NatCast α] [OfScientific α]
   [OfNat α 0] [OfNat α 1] [OfNat α 2] [OfNat α 100]
@@ -170,6 +188,72 @@ theorem pantr_early_exit (co : Consts α) (P : Problem α) (dir : Direction D α
     (run co P dir d0 pr stop oot x0 y Sig errz0 gV).wrote = false := by
   unfold run; simp [hi, stats0]
 
+end structural
+
+/-! ### The returned ε is the documented formula of the final iterate (ordered field) -/
+section documented
+variable {α D : Type} [Field α] [LinearOrder α] [IsStrictOrderedRing α] [RealLike α]
+
+/-- The documented formulas of the criteria that do not read `∇ψ(x̂)` do not mention it: for those the
+    (possibly stale) content of the solver's `grad_ψx̂` buffer is immaterial. -/
+theorem docCrit_gh_irrel (PC : Vec α → Vec α) (c : PANOCStopCrit) (h : requiresGradHat c = false)
+    (γ : α) (x xh yh g gh gh' : Vec α) :
+    C06.docCrit PC c γ x xh yh g gh = C06.docCrit PC c γ x xh yh g gh' := by
+  cases c <;> simp [requiresGradHat] at h <;> rfl
+
+/-- **ε equals the documented formula of the selected criterion recomputed from the final iterate data
+    `(x, x̂, γ, ∇ψ(x), ∇ψ(x̂), ŷ)`** — for every run that reached the main loop, every stop schedule,
+    direction provider, budget and exit status.  `c` is the iterate that was current at exit; it is
+    consistent (`γ > 0`, `x̂ = Π_C(x − γ∇ψ(x))`, `p = x̂ − x`, `grad_ψ = ∇ψ(x)`, `ŷ = ŷ(x̂)`), and its `x̂`,
+    `ŷ` are what the caller's `x`, `y` hold if the outputs were overwritten.  The gradients in the formula
+    are the problem's `eval_grad_ψ` at `c.x` and at `c.xhat` — not whatever the solver's buffers hold. -/
+theorem pantr_eps_is_documented (hnn : ∀ a : α, RealLike.isNaN a = false) (PC : Vec α → Vec α)
+    (co : Consts α) (P : Problem α)
+    (hP : C06.ProxIsProj PC (fun g x gr => ((P.prox g x gr).2.1, (P.prox g x gr).2.2)))
+    (hO : GradOracles P) (dir : Direction D α) (d0 : D) (pr : Params α) (hp : ParamsOK pr)
+    (stop : Nat → Bool) (oot : Bool) (x0 y Sig errz0 gV : Vec α) (s0 : St α D)
+    (hi : initState co P d0 pr stop x0 gV = .inr s0) :
+    ∃ c : Iterate α,
+      (run co P dir d0 pr stop oot x0 y Sig errz0 gV).final = some c ∧
+      (run co P dir d0 pr stop oot x0 y Sig errz0 gV).stats.eps =
+        C06.docCrit PC pr.stopCrit c.gamma c.x c.xhat c.yhat (P.gradPsi c.x) (P.gradPsi c.xhat) ∧
+      0 < c.gamma ∧ c.xhat = PC (vsub c.x (smul c.gamma (P.gradPsi c.x))) ∧ c.p = vsub c.xhat c.x ∧
+      c.gradPsi = P.gradPsi c.x ∧ c.yhat = (P.psi c.xhat).2 ∧
+      ((run co P dir d0 pr stop oot x0 y Sig errz0 gV).wrote = true →
+        (run co P dir d0 pr stop oot x0 y Sig errz0 gV).x = c.xhat ∧
+        (run co P dir d0 pr stop oot x0 y Sig errz0 gV).y = c.yhat) := by
+  obtain ⟨s', ⟨hgood, hgam, hgc⟩, -, -, he⟩ := run_exit_inv (DocInv P pr) co P dir d0 pr stop oot
+    (docInv_headInv co P hO dir pr stop oot) x0 y Sig errz0 gV s0 hi
+    (initState_docInv co P hO d0 pr hp stop x0 gV s0 hi)
+  have hf := exitBlock_fields co pr (headStep P pr stop oot s').1 (headStep P pr stop oot s').2.1
+    (headStep P pr stop oot s').2.2 x0 y Sig errz0
+  have hh := headStep_same P pr stop oot s'
+  have hε := headStep_eps P pr stop oot s'
+  have hprox := hP s'.curr.gamma s'.curr.x s'.curr.gradPsi
+  simp only [Prod.mk.injEq] at hprox
+  have hxh : s'.curr.xhat = PC (vsub s'.curr.x (smul s'.curr.gamma s'.curr.gradPsi)) := by
+    rw [hgood.1.2.1]; exact hprox.1
+  have hpp : s'.curr.p = vsub s'.curr.xhat s'.curr.x := by
+    rw [hgood.1.2.2, hxh]; exact hprox.2
+  have hcons : C06.Consistent PC s'.curr.gamma s'.curr.p s'.curr.x s'.curr.xhat s'.curr.gradPsi :=
+    ⟨hxh, hpp⟩
+  refine ⟨s'.curr, by rw [he, hf.2.2.2.2.1, hh.1], ?_, hgam.1, by rw [← hgc]; exact hxh, hpp, hgc,
+    hgood.2.2, fun hw => ?_⟩
+  · rw [he, hf.2.2.2.1, hε.1]
+    unfold epsOf
+    rw [C06.calcErrorStopCrit_eq_doc hnn PC _ hP pr.stopCrit s'.curr.gamma (ne_of_gt hgam.1) s'.curr.p s'.curr.x
+      s'.curr.xhat s'.curr.yhat s'.curr.gradPsi _ hcons, ← hgc]
+    by_cases hr : requiresGradHat pr.stopCrit = true
+    · rw [hε.2 hr, hgood.2.2, hO.gradL]
+    · exact docCrit_gh_irrel PC pr.stopCrit (by simpa using hr) _ _ _ _ _ _ _
+  · rw [he] at hw ⊢
+    unfold exitBlock at hw ⊢
+    simp only [] at hw ⊢
+    simp only [hw, if_true, hh.1]
+    exact ⟨trivial, trivial⟩
+
+end documented
+
 /-! ### Non-vacuity -/
 section examples
 open Alpaqa.Pantr.Example
@@ -181,5 +265,52 @@ example : (solve 0 false (-1) 0).stats.status = .MaxIter ∧ (solve 0 false (-1)
 example : ∃ s, initState co P () (pr 3 false) (fun _ => false) [5] [0] = .inr s := ⟨_, rfl⟩
 
 end examples
+
+/-! ### Non-vacuity of `pantr_eps_is_documented` (`Proofs/PantrExampleQ.lean`: `Π_C` = clamp to `[−1, 10]`,
+    two iterations — one accepted, one rejected step —, exit `MaxIter`) -/
+section examplesQ
+open Alpaqa.Pantr.ExampleQ
+
+example : C06.ProxIsProj PCq (fun g x gr => ((Pq.prox g x gr).2.1, (Pq.prox g x gr).2.2)) :=
+  fun _ _ _ => rfl
+
+/-- every hypothesis instantiated, criterion `ProjGradNorm` (does not read `∇ψ(x̂)`) … -/
+example : ∃ c : Iterate ℚ, (rq none).final = some c ∧
+    (rq none).stats.eps = C06.docCrit PCq prq.stopCrit c.gamma c.x c.xhat c.yhat (Pq.gradPsi c.x)
+      (Pq.gradPsi c.xhat) ∧
+    0 < c.gamma ∧ c.xhat = PCq (vsub c.x (smul c.gamma (Pq.gradPsi c.x))) ∧ c.p = vsub c.xhat c.x ∧
+    c.gradPsi = Pq.gradPsi c.x ∧ c.yhat = (Pq.psi c.xhat).2 ∧
+    ((rq none).wrote = true → (rq none).x = c.xhat ∧ (rq none).y = c.yhat) :=
+  pantr_eps_is_documented (fun _ => rfl) PCq coq Pq (fun _ _ _ => rfl) gradOracles dirq 0 prq paramsOK
+    (stopAt none) false [4] [5] [2] [7] [0] _ rfl
+
+/-- … the numbers: final iterate `x = 1/2`, `γ = 1/2`, `∇ψ(x) = 1/2`, `x̂ = Π_C(1/4) = 1/4`, `ŷ = 1/4`;
+    `ε = ‖x − Π_C(x − γ∇ψ(x))‖∞ = 1/4` -/
+example : (rq none).final.map (fun c => (c.x, c.gamma, c.gradPsi, c.xhat, c.yhat)) =
+      some ([1/2], 1/2, [1/2], [1/4], [1/4]) ∧ (rq none).stats.eps = 1/4 ∧
+    C06.docCrit PCq .ProjGradNorm (1/2) [1/2] [1/4] [1/4] [1/2] [1/4] = 1/4 := by decide +kernel
+
+/-- … and with a criterion that reads `∇ψ(x̂)` (`ApproxKKT`; the head evaluates it with `eval_grad_L(x̂, ŷ)`),
+    interrupted inside the first iteration (flag visible from tick 8): final iterate `x = 1`, `x̂ = 1/2`,
+    `ε = ‖γ⁻¹(x − x̂) + ∇ψ(x̂) − ∇ψ(x)‖∞ = |2·(1/2) + 1/2 − 1| = 1/2`, and `x̂ = 1/2` is written back -/
+def rqK (t0 : Option Nat) : Result ℚ Nat :=
+  run coq Pq dirq 0 { prq with stopCrit := .ApproxKKT } (stopAt t0) false [4] [5] [2] [7] [0]
+
+example : ∃ c : Iterate ℚ, (rqK (some 8)).final = some c ∧
+    (rqK (some 8)).stats.eps = C06.docCrit PCq .ApproxKKT c.gamma c.x c.xhat c.yhat (Pq.gradPsi c.x)
+      (Pq.gradPsi c.xhat) ∧
+    0 < c.gamma ∧ c.xhat = PCq (vsub c.x (smul c.gamma (Pq.gradPsi c.x))) ∧ c.p = vsub c.xhat c.x ∧
+    c.gradPsi = Pq.gradPsi c.x ∧ c.yhat = (Pq.psi c.xhat).2 ∧
+    ((rqK (some 8)).wrote = true → (rqK (some 8)).x = c.xhat ∧ (rqK (some 8)).y = c.yhat) :=
+  pantr_eps_is_documented (fun _ => rfl) PCq coq Pq (fun _ _ _ => rfl) gradOracles dirq 0
+    { prq with stopCrit := .ApproxKKT } ⟨by norm_num [prq], by norm_num [prq], by norm_num [prq]⟩
+    (stopAt (some 8)) false [4] [5] [2] [7] [0] _ rfl
+
+example : (rqK (some 8)).stats.status = .Interrupted ∧ (rqK (some 8)).wrote = true ∧
+    (rqK (some 8)).final.map (fun c => (c.x, c.gamma, c.xhat)) = some ([1], 1/2, [1/2]) ∧
+    (rqK (some 8)).stats.eps = 1/2 ∧ (rqK (some 8)).x = [1/2] ∧
+    C06.docCrit PCq .ApproxKKT (1/2) [1] [1/2] [1/2] [1] [1/2] = 1/2 := by decide +kernel
+
+end examplesQ
 
 end Alpaqa.Props.C06_Pantr
